@@ -44,8 +44,10 @@ def main():
             print(sid, "DETECTED" if det else "MISSED", {p: rc for p, (rc, _) in res.items()}, flush=True)
     if len(sys.argv) > 1:
         return
-    with open(os.path.join(V, "seeded", "MATRIX.md"), "w") as f:
-        f.write("# Seeded changes vs. checks (quick tier, VERIF_SEED=1)\n\n")
+    seed = os.environ.get("VERIF_SEED", "1")
+    out_name = "MATRIX.md" if seed == "1" else f"MATRIX_seed{seed}.md"
+    with open(os.path.join(V, "seeded", out_name), "w") as f:
+        f.write(f"# Seeded changes vs. checks (quick tier, VERIF_SEED={seed})\n\n")
         f.write("Written by tools/seed_matrix.py; every change was produced by an independent sub-agent that saw only the property text, "
                 "passes the repository's test suite, and was confirmed in a scratch worktree (see each meta.json).\n\n")
         f.write("| seed | title | needs | detected by |\n|---|---|---|---|\n")
@@ -56,8 +58,8 @@ def main():
         f.write(f"\n{n} of {len(rows)} detected.\n")
         for o in obsolete:
             f.write(f"\n{o}: not run — " + json.load(open(os.path.join(V, "seeded", o, "meta.json")))["obsolete"] + "\n")
-    # machine-readable detection summary back into each meta.json
-    for sid, meta, res, det in rows:
+    # machine-readable detection summary back into each meta.json (seed 1 only)
+    for sid, meta, res, det in (rows if seed == "1" else []):
         meta["detected_quick_seed1"] = det
         meta["detected_by"] = {p: msg for p, (rc, msg) in res.items() if rc == 1}
         json.dump(meta, open(os.path.join(V, "seeded", sid, "meta.json"), "w"), indent=1)
